@@ -5,7 +5,7 @@
    CloseConnection / RemoveControlConnection / Unregister / KickOld / stale sweep / clock ticks / raw Register /
    raw UpdateAuth / tunnel conversion / transport write failure) under ANY configuration k (connection limits,
    heartbeat timeout); by_client / by_conn are GetControlConnectionByClientID / GetControlConnection. *)
-From TX Require Import Base.Threads Model.Registry Proofs.Registry.
+From TX Require Import Base.Threads Model.Registry Proofs.Registry Proofs.RegistryCounts.
 Open Scope N_scope.
 
 (* (a) looking a client up by id returns nothing or a registered, authenticated connection whose ClientID is that
@@ -69,6 +69,37 @@ Theorem C07_kicked_connection_is_gone :
   mem o (closed (kick x newc s)) = true.
 Proof. intros k ops x newc o. exact (kick_post x newc o _ (inv_run k ops init inv_init)). Qed.
 Print Assumptions C07_kicked_connection_is_gone.
+
+(* (c) removed connections are never returned: once an accepted connection has been closed, after ANY further
+   operation list no lookup (by connection id, by any client id, session list, tunnel registry) returns it,
+   and its transport is closed *)
+Theorem C07_closed_connection_never_returns :
+  forall (k : cfg) (ops1 ops2 : list op) (c : N),
+  mem c (streams (run Current k init ops1)) = true ->
+  let s2 := run Current k (close_conn c (run Current k init ops1)) ops2 in
+  by_conn s2 c = None /\ (forall x, by_client s2 x <> Some c) /\ mem c (sess s2) = false /\
+  get c (tun s2) = None /\ mem c (closed s2) = true.
+Proof. exact closed_never_returns. Qed.
+Print Assumptions C07_closed_connection_never_returns.
+
+(* (d) counts: CloseConnection(c) gives back exactly the session / control / tunnel slot that c held (GetConnectionStats) *)
+Theorem C07_close_restores_counts :
+  forall (k : cfg) (ops : list op) (c : N),
+  let s := run Current k init ops in
+  counts s = (let '(t, ct, tn) := counts (close_conn c s) in
+              (t + b2n (mem c (sess s)), ct + b2n (has (get c (reg s))), tn + b2n (has (get c (tun s))))).
+Proof. intros k ops c. exact (counts_close_conn c _ (inv_run k ops init inv_init) (wf2_run Current k ops init wf2_init)). Qed.
+Print Assumptions C07_close_restores_counts.
+
+(* (d) opening a fresh connection adds one to the total only, and closing it again restores all three counts *)
+Theorem C07_accept_close_roundtrip :
+  forall (k : cfg) (ops : list op) (c : N),
+  let s := run Current k init ops in
+  mem c (streams s) = false -> (0 <? maxConn k) && (maxConn k <=? N.of_nat (length (sess s))) = false ->
+  counts (run Current k s [Accept c]) = (let '(t, ct, tn) := counts s in (t + 1, ct, tn)) /\
+  counts (run Current k s [Accept c; CloseConn c]) = counts s.
+Proof. intros k ops c. exact (accept_close_roundtrip Current k c _ (wf2_run Current k ops init wf2_init)). Qed.
+Print Assumptions C07_accept_close_roundtrip.
 
 (* the defect of the pinned tree (repaired by fixes/C07-reauth-stale-index.diff), kept as refuted statements:
    Register; UpdateAuth 100; UpdateAuth 200; Remove  leaves id 100 resolving to a closed, unregistered connection *)
